@@ -83,6 +83,7 @@ func judge(spec *clientSpec, pol *policy, d *dlog) ([]finding, jstats) {
 	var runStartList, prevRunStartList []string
 	signErrorInRun, signErrorInPrevRun := false, false
 	runFlagged := false // a request of the current run was already reported as unlisted
+	runEnded := false   // the auth loop took over again (partial success, AuthCallback): the next request starts a new run even for the same method
 	// once the client has been seen working from a stale list, it keeps doing so
 	// until the next method-terminating FAILURE gives it a new one
 	var staleList []string
@@ -109,6 +110,7 @@ func judge(spec *clientSpec, pol *policy, d *dlog) ([]finding, jstats) {
 			}
 		case "CB":
 			callbacks++
+			runEnded = true
 			exempt = e.CBMethod != ""
 			if exempt {
 				st["attempt_chosen_by_callback"]++
@@ -152,6 +154,7 @@ func judge(spec *clientSpec, pol *policy, d *dlog) ([]finding, jstats) {
 					if e.Partial {
 						st["partial_success_sent"]++
 						retryRun = 0
+						runEnded = true
 					} else {
 						retryRun++
 					}
@@ -216,6 +219,10 @@ func judge(spec *clientSpec, pol *policy, d *dlog) ([]finding, jstats) {
 			lastReq, lastReqAnswered = m, false
 			if !sameMethodAsPrev {
 				retryRun = 0
+			}
+			newRun := !sameMethodAsPrev || runEnded
+			if newRun {
+				runEnded = false
 				prevRunMethod, prevRunStartList, signErrorInPrevRun = runMethod, runStartList, signErrorInRun
 				runMethod, runStartList, signErrorInRun = m.Method, slices.Clone(listTerm), false
 				runFlagged = false
@@ -241,7 +248,7 @@ func judge(spec *clientSpec, pol *policy, d *dlog) ([]finding, jstats) {
 				st["initial_none"]++
 			case exempt:
 				st["requests_in_callback_chosen_attempt"]++
-			case runFlagged && sameMethodAsPrev:
+			case runFlagged && sameMethodAsPrev && !newRun:
 				st["further_requests_of_an_attempt_already_reported"]++
 			default:
 				inList := haveList && (slices.Contains(listTerm, m.Method) || slices.Contains(listAny, m.Method))
@@ -277,7 +284,7 @@ func judge(spec *clientSpec, pol *policy, d *dlog) ([]finding, jstats) {
 						// run ended without a server FAILURE) or ended in a local signing
 						// error: the newer list the server sent in between was dropped.
 						classified := false
-						if pm := spec.method(prevRunMethod); pm != nil && !sameMethodAsPrev && slices.Contains(prevRunStartList, m.Method) {
+						if pm := spec.method(prevRunMethod); pm != nil && newRun && slices.Contains(prevRunStartList, m.Method) {
 							switch {
 							case spec.anyWrapped(prevRunMethod):
 								k, classified = "method-from-stale-list:after-retryable-method", true
